@@ -402,11 +402,13 @@ func rawLen(src []byte, k, n int, html, js bool) int {
 //@ ensures error: result2 != nil ==> sameSlice(result0, dst)
 //@ ensures err-type: result2 == nil || isUnexpectedEOF(result2) || result2 == ErrInvalidUTF8 || isInvalidTextErr(result2)
 //@ ensures ok-len: result2 == nil ==> result1 >= 2
+//@ ensures ok-grow: result2 == nil ==> len(result0) >= len(dst)+2 && result0[len(dst)] == '"'
 //@ ensures src-kept: unchanged(src)
 //@ ensures preserve-len: result2 == nil && flags.Get(jsonflags.AnyEscape) && flags.Get(jsonflags.PreserveRawStrings) ==> len(result0) == len(dst)+rawLen(src, 0, result1, flags.Get(jsonflags.EscapeForHTML), flags.Get(jsonflags.EscapeForJS))
 //@ loop 0 invariant accounting: len(dst)-len(old(dst))+(i-lastAppendIndex)+rawLen(src, i, n, flags.Get(jsonflags.EscapeForHTML), flags.Get(jsonflags.EscapeForJS)) == rawLen(src, 0, n, flags.Get(jsonflags.EscapeForHTML), flags.Get(jsonflags.EscapeForJS))
 //@ at call utf8.DecodeRune#0 assert unit: rn == rawUnitSrc(src, i) && (utf8Len(src, i) > 0 ==> r == utf8Rune(src, i) && rn == utf8Len(src, i)) && (utf8Len(src, i) <= 0 ==> r == utf8.RuneError && rn == 1)
 //@ loop 0 invariant range: 0 <= lastAppendIndex && lastAppendIndex <= i && i <= n && n <= len(src) && len(dst) >= len(old(dst))
+//@ loop 0 invariant first: len(dst)-len(old(dst)) >= lastAppendIndex && (lastAppendIndex == 0 ==> len(dst) == len(old(dst))) && (lastAppendIndex > 0 ==> dst[len(old(dst))] == '"') && n >= 2 && src[0] == '"'
 //@ loop 0 invariant alias: sameOrFresh(dst, old(dst)) && distinctArrays(dst, src)
 //@ loop 0 invariant prefix: vForall(0, len(old(dst)), func(k int) bool { return dst[k] == old(dst[k]) })
 //@ loop 0 invariant src-kept: unchanged(src)
